@@ -141,6 +141,7 @@ fn single_field_sweep(bits64: bool, section_only: bool) -> Vec<Item> {
         text: (0..300u32).map(|i| (i * 7) as u8).collect(),
         vaddr_bias: 0,
         data_pages: 1,
+        empty_first_note: false,
     };
     let built = elf::build(&spec);
     let mut out = Vec::new();
